@@ -594,6 +594,118 @@ impl SandboxView {
     }
 }
 
+// ---------------------------------------------------------------------------------------------
+// compile_big: messages+runs sidecars beyond the 256 KiB initial tail window, anchors near the tail
+// ---------------------------------------------------------------------------------------------
+
+#[derive(Debug, Clone, Serialize, Deserialize)]
+struct BigCase {
+    /// content size (bytes) of each message, in order
+    sizes: Vec<u16>,
+    /// after message i (index into sizes) append this many non-message frames (side effects) and
+    /// optionally a run_ended frame naming it
+    dense_every: u8,
+    run_ended_every: u8,
+    /// manual checkpoints at these message indices (choices)
+    checkpoints: Vec<u16>,
+    /// anchors as distance from the last message
+    anchors_from_tail: Vec<u8>,
+}
+
+fn big_strategy() -> BoxedStrategy<BigCase> {
+    (
+        proptest::collection::vec(prop_oneof![3 => 6000u16..9000, 2 => 3000u16..6000, 1 => 10u16..200, 1 => 12000u16..20000], 18..90),
+        0u8..4,
+        0u8..4,
+        proptest::collection::vec(any::<u16>(), 0..3),
+        proptest::collection::vec(prop_oneof![3 => 0u8..45, 1 => Just(0u8), 1 => 15u8..18], 1..5),
+    )
+        .prop_map(|(sizes, dense_every, run_ended_every, checkpoints, anchors_from_tail)| BigCase { sizes, dense_every, run_ended_every, checkpoints, anchors_from_tail })
+        .boxed()
+}
+
+fn run_big(case: &BigCase) -> CaseReport {
+    let mut rep = CaseReport::new();
+    rv::fuel::install();
+    let sb = Sandbox::new("c08big");
+    let tid;
+    {
+        let live = sb.open();
+        tid = live.store.ensure_default().expect("ensure");
+        let mut ids: Vec<String> = Vec::new();
+        let link = ContinuityRunLink { continuity_id: tid.clone(), message_id: "m".into(), actor_id: "user".into(), origin: "test".into() };
+        for (i, size) in case.sizes.iter().enumerate() {
+            let content: String = format!("{i} ") + &"lorem ipsum ".repeat(*size as usize / 12 + 1)[..*size as usize];
+            if let Ok(id) = live.store.append_message(&tid, "user".into(), "test".into(), content) {
+                ids.push(id.clone());
+                if case.run_ended_every > 0 && i % case.run_ended_every as usize == 0 {
+                    let rid = format!("00000000-0000-4000-8000-{:012}", i);
+                    let _ = live.store.append_run_spawned(&tid, &id, &rid, "user".into(), "test".into());
+                    let _ = live.store.append_run_ended(&tid, &id, &rid, "completed".into(), "user".into(), "test".into());
+                }
+                if case.dense_every > 0 && i % case.dense_every as usize == 0 {
+                    for _ in 0..3 {
+                        let _ = live.store.append_tool_side_effects(&link, "run-x", ToolSideEffects { tool_id: "t".into(), tool_name: "write".into(), affected_paths: None, checkpoint_id: None });
+                    }
+                }
+            }
+        }
+        for c in &case.checkpoints {
+            if !ids.is_empty() {
+                let mid = ids[pick(*c, ids.len())].clone();
+                let _ = live.store.compaction_checkpoint_cumulative_v1(
+                    &tid,
+                    ripd::CompactionCheckpointCumulativeV1Request {
+                        summary_markdown: Some("manual".into()), summary_artifact_id: None, to_message_id: Some(mid), to_seq: None,
+                        stride_messages: None, actor_id: "user".into(), origin: "test".into(),
+                    },
+                );
+            }
+        }
+    }
+    let t = read_truth(&sb, &tid);
+    let msgs: Vec<&Event> = t.thread.iter().filter(|e| matches!(e.kind, EventKind::ContinuityMessageAppended { .. })).collect();
+    if msgs.is_empty() {
+        return rep;
+    }
+    let mr_len = rv::store::file_len(&sb.streams_dir().join(format!("{tid}.mr.v1.jsonl")));
+    rep.class_if(mr_len > 256 * 1024, "mr_sidecar>256KiB");
+    rep.class_if(mr_len > 512 * 1024, "mr_sidecar>512KiB");
+    for d in &case.anchors_from_tail {
+        let ai = msgs.len().saturating_sub(1 + *d as usize);
+        let anchor = msgs[ai].id.clone();
+        let cut = model_cut(&t.thread, &anchor).unwrap_or(0);
+        let expected = model_compile(&t, &tid, &anchor, cut);
+        if mr_len > 256 * 1024 && ai + 1 < msgs.len() {
+            rep.nontrivial = true;
+        }
+        rep.class(if ai + 1 == msgs.len() { "anchor:tail" } else if *d < 16 { "anchor:within_16_of_tail" } else { "anchor:deeper" });
+        for (name, drop_caches) in [("a_caches_intact", false), ("c_caches_removed", true)] {
+            let f = sb.fork("c08bigv");
+            if drop_caches {
+                let _ = std::fs::remove_dir_all(f.streams_dir());
+            }
+            let live = f.open();
+            match compile(&live, &f, &tid, &anchor) {
+                Ok(v) => {
+                    let (cmp, _) = observed(&f, &v);
+                    if cmp != expected {
+                        let slim = |x: &Value| json!({"from_seq": x["from_seq"], "strategy": x["strategy"], "checkpoints": x["checkpoints"],
+                            "item_seqs": x["bundle"]["items"].as_array().map(|a| a.iter().map(|i| i["thread_seq"].clone()).collect::<Vec<_>>())});
+                        rep.fail(
+                            format!("compile_differs_from_model|{name}|{}", diff_sig(&cmp, &expected)),
+                            json!({"anchor_from_tail": d, "mr_sidecar_bytes": mr_len, "got": slim(&cmp), "expected": slim(&expected)}),
+                        );
+                    }
+                }
+                Err(e) => rep.fail(format!("compile_failed|{name}|big"), json!({"error": e})),
+            }
+        }
+        rep.count("anchors_compiled", 1);
+    }
+    rep
+}
+
 fn main() {
     let mut check = Check::new("C08", "exploration");
     check.assume("reference compiler written from docs/03_contracts/context_bundle.md, ADR-0010/0018 and the property statement: cut = (seq of the next message after the anchor) - 1, else the head, never below the anchor; cumulative checkpoints with to_seq <= cut, latest frame per to_seq; hierarchy = latest, then repeatedly the greatest to_seq <= current/2, at most 3, ascending; messages after the latest selected checkpoint and <= cut, last 16, oldest first, each followed by the concatenated output text of the run whose last run_ended <= cut names it");
@@ -605,5 +717,13 @@ fn main() {
     check.group("compile", rule, GroupOpts { cases: n, max_shrink_iters: 60, watchdog_s: 900, ..Default::default() }, || case_strategy(false), run);
     let n = check.cases(60, 1500);
     check.group("compile_long", "same with 18-43 router steps (more than 16 messages, several checkpoint levels)", GroupOpts { cases: n, max_shrink_iters: 30, watchdog_s: 900, ..Default::default() }, || case_strategy(true), run);
+    let n = check.cases(240, 6000);
+    check.group(
+        "compile_big",
+        "threads built through the store API whose messages+runs sidecar exceeds the 256 KiB initial tail window (18-89 messages of 3-20 KiB, optional run_ended / dense side-effect frames, manual checkpoints), anchors at generated distances 0-44 from the tail; caches intact and removed vs the reference compiler. non-trivial = sidecar > 256 KiB and anchor not the last message",
+        GroupOpts { cases: n, max_shrink_iters: 200, watchdog_s: 900, ..Default::default() },
+        big_strategy,
+        run_big,
+    );
     check.finish();
 }
